@@ -674,6 +674,25 @@ impl<N: ComplexField> RungeKuttaCoefficients<4> for RK23Coefficients<N> {
 /// ```
 pub type RungeKutta23<'a, N, D, T, F> = RungeKutta<'a, N, D, 4, T, F, RK23Coefficients<N>>;
 
+// Verification hook (off by default, enabled only with `--cfg bacon_verif`):
+// read-only view of the step bounds the solver was handed by its builder.
+#[cfg(bacon_verif)]
+impl<'a, N, D, const O: usize, T, F> RungeKuttaSolver<'a, N, D, O, T, F>
+where
+    D: Dimension,
+    N: ComplexField + Copy,
+    T: Clone,
+    F: Derivative<N, D, T> + 'a,
+    DefaultAllocator: Allocator<N, D>,
+    DefaultAllocator: Allocator<N, Const<O>>,
+    DefaultAllocator: Allocator<N, D, Const<O>>,
+{
+    #[doc(hidden)]
+    pub fn verif_dt_bounds(&self) -> (N::RealField, N::RealField) {
+        (self.dt_min.real(), self.dt_max.real())
+    }
+}
+
 #[cfg(test)]
 mod test {
     use super::*;
